@@ -937,6 +937,7 @@ type verifC15Result struct {
 	Seconds     float64          `json:"seconds"`
 	Legs        string           `json:"legs"`
 	ServerPairs int              `json:"server_generations"`
+	Reruns      int              `json:"reruns_after_suspected_interference"`
 }
 
 type verifC15Agg struct {
@@ -1024,7 +1025,43 @@ type verifC15Env struct {
 	agg         *verifC15Agg
 }
 
-func verifC15RunCase(env *verifC15Env, cs *verifC15Case) (legs int) {
+// mismatches of one run of one case, held back until it is known whether the case is re-run
+type verifC15Rec struct {
+	seq, size int
+	repro     string
+	yamlData  []byte
+	diffs     []verifC15Diff
+}
+
+type verifC15Recs struct{ list []verifC15Rec }
+
+func (r *verifC15Recs) report(seq, size int, repro string, yamlData []byte, diffs []verifC15Diff) {
+	r.list = append(r.list, verifC15Rec{seq, size, repro, yamlData, diffs})
+}
+
+// Symptoms that a foreign store can cause: the test server uses fixed ports, and when another
+// process starts a test server on the same machine its store attaches to OUR NATS server for a
+// moment and answers requests from its own empty database (reads come back empty, writes are
+// acknowledged with its errors). A case that shows such a symptom is rebuilt from scratch (fresh
+// ids) up to two more times; only what the last run shows is reported.
+func (r *verifC15Recs) suspect() bool {
+	for _, rec := range r.list {
+		for _, d := range rec.diffs {
+			switch {
+			case strings.HasPrefix(d.Class, "precondition"), strings.HasPrefix(d.Class, "harness"),
+				d.Class == "export error", d.Class == "imported top node count wrong",
+				strings.HasPrefix(d.Class, "child missing"), strings.HasPrefix(d.Class, "node point missing"),
+				strings.HasPrefix(d.Class, "edge point missing"):
+				return true
+			case strings.HasPrefix(d.Class, "import error") && !strings.Contains(d.Detail, "parsing YAML"):
+				return true
+			}
+		}
+	}
+	return false
+}
+
+func verifC15RunCase(env *verifC15Env, cs *verifC15Case, out *verifC15Recs) (legs int) {
 	nc := env.nc
 	size := len(cs.Live) * 1000 // smallest reproducer = fewest nodes, then fewest points
 	for _, n := range cs.Live {
@@ -1034,7 +1071,7 @@ func verifC15RunCase(env *verifC15Env, cs *verifC15Case) (legs int) {
 		cs.Seq, cs.Phase, cs.Shape, cs.Rot, cs.Off, verifC15Render(cs.Top, false))
 	var yamlData []byte
 	fail := func(class, detail string) {
-		env.agg.report(cs.Seq, size, repro, yamlData, []verifC15Diff{{Class: class, Detail: detail}})
+		out.report(cs.Seq, size, repro, yamlData, []verifC15Diff{{Class: class, Detail: detail}})
 	}
 
 	p1, p2 := uuid.New().String(), uuid.New().String()
@@ -1066,7 +1103,7 @@ func verifC15RunCase(env *verifC15Env, cs *verifC15Case) (legs int) {
 	orig := kids[0]
 	pre := verifC15Compare("pre", false, false, verifC15Expect(cs.Top, p1), orig, p1, env.byText)
 	if len(pre) > 0 {
-		env.agg.report(cs.Seq, size, repro, nil, pre)
+		out.report(cs.Seq, size, repro, nil, pre)
 	}
 
 	// export
@@ -1123,7 +1160,7 @@ func verifC15RunCase(env *verifC15Env, cs *verifC15Case) (legs int) {
 			fail("imported top node count wrong", fmt.Sprintf("leg (a): %v nodes below the import parent, want 1", len(got)))
 		default:
 			if d := verifC15Compare("a", true, true, orig, got[0], p2, env.byText); len(d) > 0 {
-				env.agg.report(cs.Seq, size, repro, yamlData, d)
+				out.report(cs.Seq, size, repro, yamlData, d)
 			}
 		}
 	}
@@ -1145,7 +1182,7 @@ func verifC15RunCase(env *verifC15Env, cs *verifC15Case) (legs int) {
 				fail("imported top node count wrong", fmt.Sprintf("leg (c): %v nodes below the import parent, want 1", len(got)))
 			default:
 				if d := verifC15Compare("c", false, true, orig, got[0], p1, env.byText); len(d) > 0 {
-					env.agg.report(cs.Seq, size, repro, yamlData, d)
+					out.report(cs.Seq, size, repro, yamlData, d)
 				}
 			}
 			_ = verifC15Delete(nc2, p1, env.root2)
@@ -1181,7 +1218,7 @@ func verifC15RunCase(env *verifC15Env, cs *verifC15Case) (legs int) {
 		fail("imported top node count wrong", fmt.Sprintf("leg (b): %v nodes below the import parent, want 1", len(got)))
 	default:
 		if d := verifC15Compare("b", false, true, orig, got[0], p1, env.byText); len(d) > 0 {
-			env.agg.report(cs.Seq, size, repro, yamlData, d)
+			out.report(cs.Seq, size, repro, yamlData, d)
 		}
 	}
 	return
@@ -1197,7 +1234,20 @@ func verifC15Unmarshal(y []byte, v interface{}) (err error) {
 			err = fmt.Errorf("PANIC in yaml.Unmarshal: %v", r)
 		}
 	}()
-	return yaml.Unmarshal(y, v)
+	if e := yaml.Unmarshal(y, v); e != nil {
+		return fmt.Errorf("%v", verifC15ErrStr(e))
+	}
+	return nil
+}
+
+// even the Error method of the YAML library's errors can panic
+func verifC15ErrStr(err error) (s string) {
+	defer func() {
+		if r := recover(); r != nil {
+			s = fmt.Sprintf("PANIC in the Error method of the error value: %v", r)
+		}
+	}()
+	return err.Error()
 }
 
 func verifC15Marshal(v interface{}) (y []byte, err error) {
@@ -1206,7 +1256,11 @@ func verifC15Marshal(v interface{}) (y []byte, err error) {
 			err = fmt.Errorf("PANIC in yaml.Marshal: %v", r)
 		}
 	}()
-	return yaml.Marshal(v)
+	y, e := yaml.Marshal(v)
+	if e != nil {
+		return nil, fmt.Errorf("%v", verifC15ErrStr(e))
+	}
+	return y, nil
 }
 
 func verifC15Import(nc *nats.Conn, parent string, y []byte, preserve bool) (err error) {
@@ -1498,7 +1552,7 @@ func TestVerifC15ExportImport(t *testing.T) {
 			}
 		}
 		sort.SliceStable(big, func(i, j int) bool { return big[i].nodes() < big[j].nodes() })
-		maxNodes := 12
+		maxNodes := 10
 		if s := os.Getenv("VERIF_C15_MAXNODES"); s != "" {
 			if v, err := strconv.Atoi(s); err == nil {
 				maxNodes = v
@@ -1557,6 +1611,7 @@ func TestVerifC15ExportImport(t *testing.T) {
 		"shape-plain = density by (preorder index + offset) mod 4, plain texts, benign values; shape-nasty = same densities, strings and values rolling through the whole corpus / value list. %v. "+
 		"Legs per tree: (a) import below another fresh group with preserveIDs=false; (b) DeleteNode(original) then import below the original parent with preserveIDs=true on the same instance (restore); (c) import with preserveIDs=true on a second instance (server.TestServer(\"2\"), started once) below a group node with the original parent's id. "+
 		"YAML leg (no server): every corpus string as point text, as point key and as description+edge text, every string of length 1..%v over the %v-symbol alphabet %v as point text and as point key, and the values %v as point value, through yaml.Marshal/yaml.Unmarshal of client.SiotExport (goccy/go-yaml as imported by client/node.go). "+
+		"Interference guard: the test servers use fixed ports shared with other users of the machine; a case showing a symptom that a foreign store attached to our NATS port can cause (empty reads, missing nodes or points, foreign write errors, timeouts) is rebuilt from scratch with fresh ids up to 2 more times and only its last run is reported (count: reruns_after_suspected_interference). "+
 		"Domain restrictions: valid UTF-8 without control characters other than \\n and \\t; no NaN/Inf (the store refuses NaN); keys \"\" and \"0\" are never both used for one point type (they are the same point); texts <= 2 KB; point Data is not used.",
 		tier, N, verifC15Labels(corpus), verifC15Labels(plain), nMixed, mixedStep, shapeRule,
 		genLen, len(verifC15Alphabet), strconv.Quote(strings.Join(verifC15Alphabet, "")), fmt.Sprint(verifC15YamlValues))
@@ -1639,10 +1694,26 @@ func TestVerifC15ExportImport(t *testing.T) {
 			go func() {
 				defer wg.Done()
 				for cs := range ch {
-					l := verifC15RunCase(env, cs)
+					var recs *verifC15Recs
+					var l int
+					reruns := 0
+					for attempt := 0; ; attempt++ {
+						recs = &verifC15Recs{}
+						l = verifC15RunCase(env, cs, recs)
+						if attempt >= 2 || !recs.suspect() {
+							break
+						}
+						reruns++
+						time.Sleep(2 * time.Second)
+						cs = verifC15BuildCase(cs.Seq, cs.Phase, cs.Shape, cs.Rot, cs.Off, corpus, plain)
+					}
+					for _, rec := range recs.list {
+						agg.report(rec.seq, rec.size, rec.repro, rec.yamlData, rec.diffs)
+					}
 					legMu.Lock()
 					res.TreeLegs += l
 					res.Trees++
+					res.Reruns += reruns
 					legMu.Unlock()
 				}
 			}()
